@@ -143,11 +143,28 @@ static Verdict run_flow(const Case &c) {
     memcpy(d.mac, ic.mac.b, 6);
     d.ctx = w.ctx(ifi); d.send_hello = on_hello; d.user = &mon; d.call_parse_frame = 1; d.skip_trailing_tick = 1;
     if (br_darwin_init(&d) != 0) { v.fail("constructors failed"); g_mon = nullptr; return v; }
+    // a second interface of the same daemon (own engines, own session table, own tick), served FIRST at every instant: it hears the
+    // same mappers and is ticked in the same second; it is not judged, and nothing it does may show on the observed interface
+    br_darwin d2{};
+    IfCfg ic2 = ic; ic2.mac = mac_from_u64(mac_to_u64(ic.mac) ^ 0x0100);
+    bool two = c.c(2) != 0;
+    int if2 = two ? w.add_if(ic2) : -1;
+    if (two) {
+        memcpy(d2.mac, ic2.mac.b, 6);
+        d2.ctx = w.ctx(if2); d2.send_hello = [](void *) {}; d2.user = &d2; d2.call_parse_frame = 1; d2.skip_trailing_tick = 1;
+        if (br_darwin_init(&d2) != 0) { v.fail("constructors failed"); br_darwin_destroy(&d); g_mon = nullptr; return v; }
+    }
     Model md;
     int suppressed = 0, full_refusals = 0;
-    auto do_tick = [&](size_t i) { tick_and_judge(v, mon, md, i, d.enumeration, [&] { br_darwin_idle_tick(&d); }, suppressed); };
+    auto do_tick = [&](size_t i) { tick_and_judge(v, mon, md, i, d.enumeration, [&] { if (two) br_darwin_idle_tick(&d2); br_darwin_idle_tick(&d); }, suppressed); };
     auto rx = [&](size_t i, const Bytes &f, bool is_discover_01) {
         uint8_t *tf;
+        if (two && f.size() >= 18 && (f[0] & 1)) {   // broadcasts (Discover, Hello, broadcast Reset) reach the other interface as well, and first
+            uint8_t *b2 = w.stage(if2, f, CLEAN, &tf);
+            br_darwin_rx(&d2, b2, f.size());
+            free(tf);
+            (void)drain_log();
+        }
         uint8_t *b = w.stage(ifi, f, CLEAN, &tf);
         int prev = br_aut_state(d.mapping);
         br_darwin_rx(&d, b, f.size());
@@ -196,6 +213,7 @@ static Verdict run_flow(const Case &c) {
         }
     }
     br_darwin_destroy(&d);
+    if (two) { br_darwin_destroy(&d2); v.cls("next-to-a-second-interface"); }
     int events = md.completed + md.expired + md.removed + md.dropped30 + suppressed;
     v.nontrivial = mon.at.size() >= 2 && events >= 1;
     if (!mon.at.empty()) v.cls("hello-sent");
@@ -250,7 +268,7 @@ int main(int argc, char **argv) {
     bool ok = run_cases(a, ev, "c12-primitives", a.n(40000, 800000), 200, gen0, run);
     if (ok) {
         auto gen1 = rc::gen::exec([=] {
-            Case c; c.cfg = {1, *gx::bnd({1, 1000, 999999}, 1, 10000000, 1, 1)};
+            Case c; c.cfg = {1, *gx::bnd({1, 1000, 999999}, 1, 10000000, 1, 1), *gx::pick({0, 1, 1})};
             int n = *gx::range<int>(1, 30);
             c.ops = *rc::gen::resize(n, rc::gen::container<std::vector<Op>>(rc::gen::exec([=] {
                 Op o;
